@@ -110,6 +110,11 @@ class Check(PropertyCheck):
             tr.take(j)
             n_acc += 1
             lines += [f"disp {j} {p} {m}", "fsnap", "fspec"]
+            if rng.random() < 0.04:
+                # the user unsubscribes one observer (never one that another observer uses as its helper): the others go on
+                # (and never one the observer-based rule looks up, when that rule is among the readers)
+                pool = ["earliest_start_time", "is_scheduled", "position_in_job"] + ([] if ask_rule else ["is_ready", "duration"])
+                lines += ["funsubk " + rng.choice(pool), "fsnap"]
             if resets_left and rng.random() < 0.15:
                 resets_left -= 1
                 lines += ["reset", "fsnap", "fspec"]
@@ -165,6 +170,9 @@ class Check(PropertyCheck):
                 est[op.operation_id] = s
                 prev = s + op.duration
         snap = parse_fsnap(out)
+        # observers the user unsubscribed are no longer notified: their (frozen) arrays are not statements about the current state
+        subscribed = {int(t) for t in out.split(" || ")[0].split()[1:]}
+        snap = {oid: v for oid, v in snap.items() if oid in subscribed}
 
         def bad(kind, what, i, got, want):
             if got is None or abs(want) >= 2 ** 24:
